@@ -407,3 +407,21 @@ pub fn same_frame3(property: &'static str) -> ReplCell {
     };
     c
 }
+
+/// `insert` on top of an existing component (reported by Bevy as an addition, so it travels in the
+/// update message) mixed with plain mutations, removals and insertions of the same components.
+pub fn reinsert(property: &'static str) -> ReplCell {
+    let mut c = base("reinsert", property);
+    c.init = vec![Op::Spawn(0, AB), Op::Spawn(1, M_A)];
+    c.alphabet = vec![
+        Op::Nop,
+        Op::Mut(0, TA),
+        Op::ReIns(0, TA),
+        Op::ReIns(0, TB),
+        Op::Mut(0, TB),
+        Op::Rm(0, TB),
+        Op::Ins(0, TB),
+        Op::ReIns(1, TA),
+    ];
+    c
+}
